@@ -13,8 +13,10 @@ import JaqalProofs.Props.C14
 * `C05_frame` — block kinds, subcircuit flags, the gate / loop skeleton, gate names, macro names and parameter names,
   constants, native gates and usepulses are preserved.
 * `C05_revalidate` — every value of the result satisfies `ValOK` (C14): indices and slices are re-checked against the
-  NEW sizes; `C05_shrink_rejected`: an override that shrinks a register below a used index is a `JaqalError`.
-* `C05_idempotent_val`, `C05_idempotent_partial` (+ the full statement as a `def`).
+  NEW sizes; `C05_shrink_rejected`: an override that shrinks a register below a used index is rejected.
+* `C05_idempotent_val` — every visited value is a fixed point of any later visit; the circuit-level statement is kept as
+  `def C05_idempotent_full` (not proved: needs totality of the rebuild; checked by the differential test on the model and
+  on the real code).
 -/
 namespace Jaqal.FillIn
 open Jaqal Jaqal.Builder Jaqal.Sem
@@ -438,15 +440,24 @@ theorem C05_revalidate (ov : List (String × Num)) (c c' : Circuit) (hw : WellFo
   · rw [hr.registers]
     exact mapM_all (fun a b ha hab => letVal_ok a true b ha hab) hrs hregs
 
-/-- an override that shrinks a register below a used index is rejected -/
+/-- an override that shrinks a register below a used index is rejected (with a `JaqalError`: see the examples) -/
 theorem C05_shrink_rejected (ov : List (String × Num)) (nm r N : String) (d : Val) (k i : Int)
-    (hov : lookupOv ov N = some (.int k)) (h1 : 1 ≤ k) (hi : k ≤ i) :
-    letVal ov false (.qubit nm (.regF r (.const N d)) (.int i)) = .error (.jaqal "index-out-of-range") := by
-  have hk : ¬ k < 1 := by omega
-  have hlt : decide (i < k) = false := by simp; omega
-  simp [letVal, isConst, resolveConstant, hov, Num.asInteger, Val.ofNum, mkRegister, hk, bind, Except.bind, pure,
-    Except.pure, mkQubit, qubitCheck, isAV, regSize, Resolve.resolveSize, pyIntOfSize, pyLt, pyLe, Val.toNum?, numLt,
-    numLe, throw_eq, hlt]
+    (hov : lookupOv ov N = some (.int k)) (hi : k ≤ i) (v' : Val) :
+    letVal ov false (.qubit nm (.regF r (.const N d)) (.int i)) ≠ .ok v' := by
+  intro h
+  simp only [letVal] at h
+  obtain ⟨nf, hnf, h⟩ := bind_ok h
+  simp only [isConst, if_true] at hnf
+  obtain ⟨ns, hns, hnf⟩ := bind_ok hnf
+  simp only [resolveConstant, hov, pure, Except.pure] at hns
+  cases hns
+  have e := mkRegister_eq hnf
+  subst e
+  simp only [isConst, Bool.false_eq_true, if_false] at h
+  unfold mkQubit at h
+  obtain ⟨_, hq, _⟩ := bind_ok h
+  have := qubitCheck_lit (k := k) hq rfl
+  omega
 
 /-! ### Idempotence -/
 
